@@ -378,6 +378,41 @@ type Cache struct {
 	PanicVal any
 	Net      *netsim.Sim // if set, operations are noted in the network's event log
 	WrapMiss bool        // a miss is reported as an error WRAPPING crl.ErrCacheMiss
+	open     int         // Get / Set calls entered and not yet returned
+	over     bool        // the caller has declared the call that used this cache finished
+	late     int         // Get / Set calls that began after that
+}
+
+// enter / exit bracket every Get and Set.
+func (c *Cache) enter() {
+	c.mu.Lock()
+	c.open++
+	if c.over {
+		c.late++
+	}
+	c.mu.Unlock()
+}
+
+func (c *Cache) exit() {
+	c.mu.Lock()
+	c.open--
+	c.mu.Unlock()
+}
+
+// CallOver marks the end of the call that was handed this cache; it returns
+// the number of cache operations still in flight at that moment.
+func (c *Cache) CallOver() int {
+	c.mu.Lock()
+	defer c.mu.Unlock()
+	c.over = true
+	return c.open
+}
+
+// Late returns the number of operations that began after CallOver.
+func (c *Cache) Late() int {
+	c.mu.Lock()
+	defer c.mu.Unlock()
+	return c.late
 }
 
 // ErrCache is the injected cache fault.
@@ -388,6 +423,8 @@ func NewCache() *Cache { return &Cache{M: map[string]*crl.Bundle{}} }
 
 // Get implements crl.Cache.
 func (c *Cache) Get(ctx context.Context, url string) (*crl.Bundle, error) {
+	c.enter()
+	defer c.exit()
 	if c.Net != nil {
 		c.Net.Note("cache-get", url)
 	}
@@ -417,6 +454,8 @@ func (c *Cache) Get(ctx context.Context, url string) (*crl.Bundle, error) {
 
 // Set implements crl.Cache.
 func (c *Cache) Set(ctx context.Context, url string, b *crl.Bundle) error {
+	c.enter()
+	defer c.exit()
 	if c.Net != nil {
 		c.Net.Note("cache-set", url)
 	}
